@@ -98,7 +98,7 @@ PROPS = {
                 rule="INT 21h / 10h x AH in supported values and random others x buffers at random segments incl. FFFFh:FFF0h.. (wrap) x capacity 0/1/2/3/5/255 x "
                      "stdin families (empty, newline only, shorter, equal, longer than capacity, unterminated, CRLF, two lines): stdout, registers and memory after the "
                      "service vs the model"),
-    "C19": dict(modules=["Emu8086.Props.C19"], runs=[("l4", "diag", {"VERIF_CLI_REPEAT": "3"}), ("l4", "run", {"VERIF_CLI_REPEAT": "2"}), ("l2", "arith+logic+shift+muldiv+mov+xfer+stack+jump+string+ctl+malformed")],
+    "C19": dict(modules=["Emu8086.Props.C19"], runs=[("l4", "diag", {"VERIF_CLI_REPEAT": "3"}), ("l4", "run", {"VERIF_CLI_REPEAT": "2"}), ("l3", "reuse"), ("l2", "arith+logic+shift+muldiv+mov+xfer+stack+jump+string+ctl+malformed")],
                 gen=["Arch", "ILiterals", "PPGrammar", "Hygiene"],
                 rule="every L4 case is run 2-3 times in separate processes: outputs, traces and final states must be byte-identical (and equal to the deterministic "
                      "model), in particular programs with several simultaneous errors; L2: ONE Interpreter object processes all requests (valid and malformed lines "
